@@ -117,7 +117,11 @@ def gen(rng, m, l=16, f=8, n_steps=(3, 8), ops=CHEAP, n_inputs=(3, 5), features=
     hi = lim // u
     for i in range(n_in):
         r = rng.random()
-        if r < 0.25:
+        if r < 0.12 and l - f >= 6:
+            # magnitude near the square root of the range: products of two such values still fit
+            big = 1 << ((l - f - 1) // 2)
+            v = rng.choice([-1, 1]) * (big - rng.choice([0.5, 1, 1.25, 2]))
+        elif r < 0.25:
             v = float(rng.randint(-min(hi - 1, 6), min(hi - 1, 6)))        # whole number
         elif r < 0.4:
             v = rng.choice([0.0, 1.0, -1.0, 0.5, -0.5, 1 / u, -1 / u, (lim - 1) / u / 4, 2.5, 0.3, 0.7, 1.5])
